@@ -43,7 +43,7 @@ impl Plan {
 pub fn plan(id: &str, tier: &str) -> Option<Plan> {
     let _t = tier == "thorough";
     match id {
-        "C01" => Some(Plan::new(if _t { 96 } else { 12 }, 1200)),
+        "C01" => Some(Plan::new(if _t { 64 } else { 12 }, 1200)),
         "C02" => Some(Plan::new(if _t { 160 } else { 14 }, 1200)),
         "C03" => Some(Plan::new(if _t { 64 } else { 12 }, 1500)),
         "C14" => Some(Plan::new(if _t { 64 } else { 6 }, 900)),
